@@ -55,8 +55,12 @@ def real_and_fourier(P, MF, MR):
     return Hr, Hk, Cr, Ck
 
 
-def user_inputs(P):
-    """Omega(k) (site-density scaled), rhoPair, per pair u(r)/kT and sigma - from the System snapshot only"""
+def user_inputs(P, spec=None):
+    """Omega(k) (site-density scaled), rhoPair, per pair u(r)/kT and sigma - from the System snapshot only, or, when the
+    caller knows it, from the DESCRIPTION the System was built from (harness/systems.py dict): then nothing the library may
+    have written into the user's objects (e.g. a defaulted sigma) can leak into the oracle"""
+    if spec is not None:
+        return spec_inputs(P, spec)
     s = P.sys
     T = list(s.types)
     R = len(T)
@@ -85,7 +89,36 @@ def user_inputs(P):
     return T, r, k, rho, site, pair, Om, u, sig
 
 
-def evaluate(P, terms=None, max_len=2100):
+def spec_inputs(P, spec):
+    from harness import systems
+    T = list(spec['types'])
+    R = len(T)
+    n, dr = int(spec['length']), float(spec['dr'])
+    r = np.arange(1, n + 1) * dr
+    k = np.arange(1, n + 1) * (math.pi / (dr * n))
+    rho = np.array([float(spec['rho'][t]) for t in T])
+    site = np.array([[rho[i] if i == j else rho[i] + rho[j] for j in range(R)] for i in range(R)])
+    pair = np.outer(rho, rho)
+    Om = np.zeros((n, R, R))
+    u, sig = {}, {}
+    for i, a in enumerate(T):
+        for j, b in enumerate(T):
+            if j < i:
+                continue
+            key = '%s-%s' % (a, b)
+            w = np.asarray(systems.make_omega(spec['omega'][key], k).calculate(np.array(k)), dtype=float) * np.ones(n)
+            Om[:, i, j] = Om[:, j, i] = w * site[i, j]
+            U = systems.make_potential(spec['pot'][key])
+            mean = 0.5 * (float(spec['diam'][a]) + float(spec['diam'][b]))
+            if getattr(U, 'sigma', None) is None:
+                U.sigma = mean
+            with np.errstate(all='ignore'):
+                u[(i, j)] = np.asarray(U.calculate(np.array(r)), dtype=float) / float(spec['kT'])
+            sig[(i, j)] = mean
+    return T, r, k, rho, site, pair, Om, u, sig
+
+
+def evaluate(P, terms=None, max_len=2100, spec=None):
     terms = terms or load_terms()
     n = int(P.sys.domain.length)
     out = {'judged': False, 'eq': None, 'clos': None, 'n': n}
@@ -95,7 +128,7 @@ def evaluate(P, terms=None, max_len=2100):
     dom = P.sys.domain
     MF, MR = dense_transforms(n, float(dom.dr), float(dom.dk), FWD, BWD)
     Hr, Hk, Cr, Ck = real_and_fourier(P, MF, MR)
-    T, r, k, rho, site, pair, Om, u, sig = user_inputs(P)
+    T, r, k, rho, site, pair, Om, u, sig = user_inputs(P, spec)
     R = len(T)
     if not (np.all(np.isfinite(Hr)) and np.all(np.isfinite(Ck))):
         out.update({'judged': True, 'eq': 1e9, 'clos': 1e9, 'why': 'stored arrays are not finite'})
@@ -117,6 +150,10 @@ def evaluate(P, terms=None, max_len=2100):
     for (i, j), uu in u.items():
         clo = P.sys.closure[T[i], T[j]]
         kind = CANON.get(type(clo).__name__)
+        spec_flag = None
+        if spec is not None:                       # which closure the user asked for, and with which flag
+            cs = spec['clo']['%s-%s' % (T[i], T[j])]
+            kind, spec_flag = CANON.get(cs[0], cs[0]), bool(cs[1]) if len(cs) > 1 else False
         if kind is None:
             continue
         c = 0.5 * (Cr[:, i, j] + Cr[:, j, i])
@@ -124,7 +161,7 @@ def evaluate(P, terms=None, max_len=2100):
         gs = h - c
         f = np.maximum(np.abs(fun[:, i, j]), np.abs(fun[:, j, i])) / r
         gin = gs - fun[:, i, j] / r
-        flag = bool(getattr(clo, 'apply_hard_core', False))
+        flag = bool(getattr(clo, 'apply_hard_core', False)) if spec_flag is None else spec_flag
         sigma = sig[(i, j)]
         core = (r <= sigma) if flag else np.zeros(n, dtype=bool)
         noise = (np.abs(r - sigma) < 1e-6) & (r != sigma) if flag else np.zeros(n, dtype=bool)     # C10's business
